@@ -58,8 +58,8 @@ TRUSTED_BASE = [
 ASSUMPTIONS = [
     "one clock reading per public call (the virtual clock moves only between calls); real-clock jitter inside a call "
     "and preemption inside a stream write are outside the model",
-    "IEEE-754: floor(percent * bar_width) <= bar_width for percent <= 1.0; the model clamps (never active in the "
-    "correspondence, the oracle checks the bar width of every frame)",
+    "CPython's binary64 division / multiplication (percent, bar offset, redraw period, %estimated%) equals the model's "
+    "correctly rounded quotient `roundQ` over Nat (ties to even, 53 bits): sampled by the byte comparison of every frame",
     "frames are narrower than the terminal (COLUMNS fixed at 120); one section per stream",
     "width specs are ASCII digit strings; placeholder names are ASCII",
 ]
